@@ -1413,3 +1413,168 @@ func (c *Ctx) reentrant(prop string) {
 	})
 	c.St.Eval("re-entrant:"+prop, true)
 }
+
+// interfering: callbacks that overwrite elements of the list they are being called on (Replace only: the length and
+// the positions of the other elements stay).  What a view does under such interference is not fixed by the model
+// (its callbacks are pure), but the views must stay consistent with one another: every typed variant hands over
+// what the untyped ForEach, restricted to that kind and subjected to the same interference, hands over — a variant
+// that collects its elements before the first call while its siblings read each element when they reach it
+// operates on values that are no longer elements.  Implementation-side monitor (C14).
+func (c *Ctx) interfering(prop string) {
+	m, r := c.M, c.R
+	m.Case("interfering-callbacks")
+	nl, no := at.NewList(7), at.NewObject("q", 1)
+	nl2, no2 := at.NewList(), at.NewObject()
+	menu := []any{"a", "b", "", 1, 2, -3, 2.5, -0.5, true, false, nil, nl, no, nl2, no2}
+	kindOf := func(v any) byte {
+		switch v.(type) {
+		case nil:
+			return 'n'
+		case string:
+			return 's'
+		case int:
+			return 'i'
+		case float64:
+			return 'f'
+		case bool:
+			return 'b'
+		case at.List:
+			return 'l'
+		case at.Object:
+			return 'o'
+		}
+		return '?'
+	}
+	show := func(vs []any) string {
+		var sb strings.Builder
+		for _, v := range vs {
+			switch x := v.(type) {
+			case at.List, at.Object:
+				fmt.Fprintf(&sb, "%c@%p ", kindOf(v), x)
+			default:
+				fmt.Fprintf(&sb, "%T:%v ", v, v)
+			}
+		}
+		return sb.String()
+	}
+	type step struct {
+		idx int
+		val any
+	}
+	type variant struct {
+		name  string
+		kinds string // '*' = untyped
+		visit func(l at.List, k byte, cb func(any))
+	}
+	variants := []variant{
+		{"ForEachX", "olsbif", func(l at.List, k byte, cb func(any)) {
+			switch k {
+			case 'o':
+				l.ForEachObject(func(x at.Object) { cb(x) })
+			case 'l':
+				l.ForEachList(func(x at.List) { cb(x) })
+			case 's':
+				l.ForEachString(func(x string) { cb(x) })
+			case 'b':
+				l.ForEachBool(func(x bool) { cb(x) })
+			case 'i':
+				l.ForEachInt(func(x int) { cb(x) })
+			case 'f':
+				l.ForEachFloat(func(x float64) { cb(x) })
+			}
+		}},
+		{"MapX", "olsbif", func(l at.List, k byte, cb func(any)) {
+			switch k {
+			case 'o':
+				l.MapObjects(func(x at.Object) any { cb(x); return 0 })
+			case 'l':
+				l.MapLists(func(x at.List) any { cb(x); return 0 })
+			case 's':
+				l.MapStrings(func(x string) any { cb(x); return 0 })
+			case 'b':
+				l.MapBools(func(x bool) any { cb(x); return 0 })
+			case 'i':
+				l.MapInts(func(x int) any { cb(x); return 0 })
+			case 'f':
+				l.MapFloats(func(x float64) any { cb(x); return 0 })
+			}
+		}},
+		{"FilterX", "olsif", func(l at.List, k byte, cb func(any)) {
+			switch k {
+			case 'o':
+				l.FilterObjects(func(x at.Object) bool { cb(x); return true })
+			case 'l':
+				l.FilterLists(func(x at.List) bool { cb(x); return true })
+			case 's':
+				l.FilterStrings(func(x string) bool { cb(x); return true })
+			case 'i':
+				l.FilterInts(func(x int) bool { cb(x); return true })
+			case 'f':
+				l.FilterFloats(func(x float64) bool { cb(x); return true })
+			}
+		}},
+		{"ReduceX", "sif", func(l at.List, k byte, cb func(any)) {
+			switch k {
+			case 's':
+				l.ReduceStrings("", func(a, x string) string { cb(x); return a })
+			case 'i':
+				l.ReduceInts(0, func(a, x int) int { cb(x); return a })
+			case 'f':
+				l.ReduceFloats(0, func(a, x float64) float64 { cb(x); return a })
+			}
+		}},
+		{"ForEachValue", "*", func(l at.List, k byte, cb func(any)) { l.ForEachValue(func(x any) { cb(x) }) }},
+		{"Map", "*", func(l at.List, k byte, cb func(any)) { l.Map(func(i int, x any) any { cb(x); return 0 }) }},
+		{"MapValues", "*", func(l at.List, k byte, cb func(any)) { l.MapValues(func(x any) any { cb(x); return 0 }) }},
+		{"Filter", "*", func(l at.List, k byte, cb func(any)) { l.Filter(func(x any) bool { cb(x); return true }) }},
+		{"Reduce", "*", func(l at.List, k byte, cb func(any)) { l.Reduce(0, func(a, x any) any { cb(x); return a }) }},
+	}
+	reference := func(l at.List, k byte, cb func(any)) {
+		l.ForEach(func(i int, x any) {
+			if k == '*' || kindOf(x) == k {
+				cb(x)
+			}
+		})
+	}
+	run := func(base []any, sched []step, k byte, visit func(at.List, byte, func(any))) (seen []any, after []any, pan any) {
+		l := at.NewList(base...)
+		n := 0
+		defer func() {
+			if p := recover(); p != nil {
+				pan = p
+			}
+			after = l.Slice()
+		}()
+		visit(l, k, func(v any) {
+			seen = append(seen, v)
+			if n < len(sched) {
+				l.Replace(sched[n].idx, sched[n].val)
+			}
+			n++
+		})
+		return
+	}
+	rounds := c.N(60, 1500)
+	for it := 0; it < rounds; it++ {
+		n := 1 + r.Intn(9)
+		base := make([]any, n)
+		for i := range base {
+			base[i] = menu[r.Intn(len(menu))]
+		}
+		sched := make([]step, r.Intn(n+2))
+		for i := range sched {
+			sched[i] = step{r.Intn(n), menu[r.Intn(len(menu))]}
+		}
+		for _, v := range variants {
+			for _, k := range []byte(v.kinds) {
+				wantSeen, wantAfter, wantPan := run(base, sched, k, reference)
+				gotSeen, gotAfter, gotPan := run(base, sched, k, v.visit)
+				if show(gotSeen) != show(wantSeen) || show(gotAfter) != show(wantAfter) || (gotPan == nil) != (wantPan == nil) {
+					m.Alarm(prop, fmt.Sprintf("interfering callback: list [%s] with the k-th call replacing %s: %s (kind %c) was handed [%s] panic=%v and left [%s]; ForEach restricted to that kind under the same interference is handed [%s] panic=%v and leaves [%s]",
+						show(base), fmt.Sprint(sched), v.name, k, show(gotSeen), gotPan, show(gotAfter), show(wantSeen), wantPan, show(wantAfter)))
+				}
+			}
+		}
+		c.St.Eval("interfering:"+show(base), len(sched) > 0)
+	}
+}
